@@ -84,7 +84,7 @@ theorem trim_opened_keep (s : State) (c start : Nat) (wf : Bool) (o : Key) (id :
   have := (trimRun_mem c (trimFuel start) start s o.id).mp hm'
   omega
 
-theorem trim_ks_keep' (s : State) (c start : Nat) (p : Key × Key) (hp : p ∈ s.ks)
+theorem trim_ks_keep2 (s : State) (c start : Nat) (p : Key × Key) (hp : p ∈ s.ks)
     (hlt : p.1.chan = c → p.1.id < start) : p ∈ (trim s c start false).1.ks := by
   rw [trim_ks]
   refine ⟨hp, ?_⟩
@@ -129,7 +129,7 @@ theorem trimAllF_keeps (s : State) (f : Option Nat) (l : List ActiveChan) (o : K
         have := ih (trim s a.chan n false).1 (f.map (· - 1)) hrest
         simp only []
         exact ⟨fun id h => this.1 id (trim_opened_keep s a.chan n false o id h hlt),
-               fun k h => this.2 k (trim_ks_keep' s a.chan n (o, k) h hlt)⟩
+               fun k h => this.2 k (trim_ks_keep2 s a.chan n (o, k) h hlt)⟩
 
 /-- **committed_circuits_stay_open.** For every start of the circuit map — successful, or aborted by
     a failing read at any position — a durable keystone whose circuit survives the purge and whose
@@ -157,6 +157,29 @@ theorem committed_circuits_stay_open_run (ops : List Op) (e : Env) (f : Option N
   (committed_circuits_stay_open e f _ (ksFun_run State.init ops (by simp [State.init, KsFun]))
     o k hk ha hc).2
 
+/-- **awaiting_resolution_stays_open.** The exception of the purge, as a statement about the
+    circuit map after the start: a circuit whose incoming channel is not fully closed, whose only
+    keystone points into a fully closed channel, and for which a resolution message is still stored,
+    is pending AND open after the restart (so `reforwardResolutions` finds its open circuit), also
+    when some read of the startup trim fails. -/
+theorem awaiting_resolution_stays_open (e : Env) (f : Option Nat) (s : State) (hf : KsFun s.ks)
+    (hinj : ∀ o1 o2 k, (o1, k) ∈ s.ks → (o2, k) ∈ s.ks → o1 = o2)
+    (o k : Key) (hk : (o, k) ∈ s.ks) (ha : k ∈ s.adds)
+    (hin : e.isClosed k.chan = false) (hres : o ∈ e.resMsg)
+    (hc : Committed e.active o) :
+    k ∈ (restart e s).adds ∧ (restartF e f s).1.opened o = some (.disk k) ∧
+      (o, k) ∈ (restartF e f s).1.ks := by
+  have hadd : k ∈ (cleanClosed e s).adds := by
+    rw [cleanClosed_adds]
+    refine ⟨ha, hin, ?_⟩
+    rintro ⟨o', k'⟩ hp hk'
+    simp only at hk'; subst hk'
+    have := hinj o' o k' hp hk
+    subst this
+    simp [purgeP, hin, hres]
+  have := committed_circuits_stay_open e f s hf o k hk hadd hc
+  exact ⟨by rw [restart_adds]; exact hadd, this.2, this.1⟩
+
 /-! ### non-vacuity: a pending remote commitment carries HTLC 2.1, its read fails
 
 Channel 2: the last revoked remote commitment has index 1, the pending (signed, not revoked) one
@@ -178,6 +201,19 @@ example : (restartF pendingCommitEnv (some 0) (run State.init pendingCommitOps))
     -- what a silent fallback to the revoked commitment's index would do:
     ((trim (restore (cleanClosed pendingCommitEnv (run State.init pendingCommitOps))) 2 1 false).1.opened
       ⟨2, 1⟩).isSome = false := by
+  decide
+
+end LndModel.C07
+
+namespace LndModel.C07
+
+/-- the purge exception is not vacuous: channel 2 is fully closed; with a stored resolution message
+    for 2.0 the circuit 1.0 stays pending and open, without one it is purged. -/
+example :
+    let s := run State.init [.commit [⟨1, 0⟩] false, .open [(⟨1, 0⟩, ⟨2, 0⟩)] false]
+    ((restart ⟨[⟨2, false⟩], [], [⟨2, 0⟩]⟩ s).opened ⟨2, 0⟩).isSome = true ∧
+    ((restart ⟨[⟨2, false⟩], [], [⟨2, 0⟩]⟩ s).pending ⟨1, 0⟩).isSome = true ∧
+    ((restart ⟨[⟨2, false⟩], [], []⟩ s).pending ⟨1, 0⟩).isSome = false := by
   decide
 
 end LndModel.C07
